@@ -38,7 +38,12 @@ theorem qinv_registerTree {U : List Name} {s0 s : St} (req : List Name) (n alias
     rcases List.mem_append.mp hx with hx | hx
     · exact h.queue x hx
     · exact hi x hx
-  split <;> split <;> exact ⟨h.fetched, hq⟩
+  have e1 : ∀ (t : St) (k : Name), (clearStale t k).fetched = t.fetched ∧ (clearStale t k).queue = t.queue := by
+    intro t k; unfold clearStale; split <;> exact ⟨rfl, rfl⟩
+  split <;> refine ⟨?_, ?_⟩ <;>
+    first
+    | (simp only [(e1 _ _).1]; exact h.fetched)
+    | (simp only [(e1 _ _).2]; exact hq)
 
 theorem qinv_symTrees {U : List Name} (c : Cfg) (hc : Closed c U) (req : List Name) (n alias : Name)
     (mtime : Int) (ts : List Nat) (s0 s : St) (h : QInv U s0 s) :
@@ -254,6 +259,6 @@ theorem C08_nonterminating_witness (fuel : Nat) :
     refine ih _ ?_ ?_ ?_ <;>
       (rcases hp with hp | hp <;> by_cases hcan : (1 : Nat) ∈ s.canonical <;>
         simp [discoverStepOld, hp, hf, hcan, AList.contains, AList.get?, trySources, aliasCycleCfg, symTrees,
-          registerTree, St.log, AList.set])
+          registerTree, clearStale, St.log, AList.set])
 
 end Pysmi.Compile
